@@ -44,12 +44,31 @@ def simp(x):
     return x
 
 
+def _small(x, budget=24):
+    """cheap syntactic size test of a z3 term (bounded traversal)"""
+    stack = [x]
+    n = 0
+    while stack:
+        e = stack.pop()
+        n += 1
+        if n > budget:
+            return False
+        stack.extend(e.children())
+    return True
+
+
 def concrete_bool(x):
     """True/False if x is definitely that, else None."""
     if isinstance(x, bool):
         return x
     if isinstance(x, int):
         return bool(x)
+    if z3.is_true(x):
+        return True
+    if z3.is_false(x):
+        return False
+    if not _small(x):
+        return None
     s = z3.simplify(x)
     if z3.is_true(s):
         return True
@@ -65,7 +84,7 @@ def concrete_int(x):
         return x
     if isinstance(x, z3.BitVecNumRef):
         return x.as_long()
-    if is_sym(x):
+    if is_sym(x) and _small(x):
         s = z3.simplify(x)
         if isinstance(s, z3.BitVecNumRef):
             return s.as_long()
